@@ -234,6 +234,12 @@ class HHRecorder:
         self.emit({"ev": "query", "s": s + 1, "kk": 0 if kk is None else kk, "thr": big(eff),
                    "out": [[kb(k), big(c)] for k, c in out]})
 
+    def generate(self, s, thr):
+        sk = self.slots[s]
+        eff = default_thr(sk.phi, sk.n_added()) if thr is None else thr
+        sk.generate_candidate_set() if thr is None else sk.generate_candidate_set(thr)
+        self.emit({"ev": "generate", "s": s + 1, "thr": big(eff)})
+
     def getitem(self, s, k):
         i = self.ident(k)
         out = self.slots[s][i]
@@ -268,7 +274,7 @@ HH_VALUES = [0, 1, 1, 1, 2, 3, 5, 97, 1000, 2**31, 2**32 - 2, 2**32 - 1, 2**32, 
 def random_history(rng, focus=None, n_events=None):
     W = rng.choice([1, 1, 2, 2, 3, 4, 5, 8, 16])
     D = rng.choice([1, 1, 2, 2, 3, 4])
-    L = rng.choice([1, 2, 2, 3, 4, 8, 16])
+    L = rng.choice([1, 2, 2, 3, 4, 8, 16, 16, 40, 255])
     NS = rng.choice([1, 2, 2, 3, 4])
     phi = rng.choice([None, None, 0.5, 0.01, 0.25])
     rec = HHRecorder(W, D, L, NS, phi)
@@ -317,6 +323,8 @@ def random_history(rng, focus=None, n_events=None):
             thr_choices = [0, 1, 2, 3, 97, 2**32 - 1]
             if rec.phi * nadd < 2**31:
                 thr_choices += [None, None, None]
+            if rng.random() < 0.2:
+                rec.generate(s, rng.choice(thr_choices))
             rec.query(s, rng.choice([None, None, 1, 2, 3]), rng.choice(thr_choices))
         else:
             rec.getitem(s, k)
@@ -355,6 +363,8 @@ def rerun(trace):
             rec.query(s, e["kk"] or None, impl.unbig(e["thr"]))
         elif ev == "getitem":
             rec.getitem(s, bytes(e["k"]))
+        elif ev == "generate":
+            rec.generate(s, impl.unbig(e["thr"]))
     return rec.trace()
 
 
